@@ -29,8 +29,8 @@ def finv (p a : Nat) : Nat := powMod a (p - 2) p
 def fsqrt (p a : Nat) : Nat :=
   let r := powMod a ((p + 1) / 4) p
   if r % 2 = 1 then fneg p r else r
-/-- fp_is_square of the ref back-end: a^((p-1)/2) = 1 (so 0 is reported as a non-square) -/
-def fisSquare (p a : Nat) : Bool := powMod a ((p - 1) / 2) p == 1 % p
+/-- fp_is_square of the ref back-end (after the repair 59953ae): a^((p-1)/2) = 1, or a = 0 -/
+def fisSquare (p a : Nat) : Bool := powMod a ((p - 1) / 2) p == 1 % p || a % p == 0
 
 instance : Add (Fp2 p) := ⟨fun a b => ⟨(a.re + b.re) % p, (a.im + b.im) % p⟩⟩
 instance : Sub (Fp2 p) := ⟨fun a b => ⟨fsub p a.re b.re, fsub p a.im b.im⟩⟩
